@@ -700,3 +700,52 @@ def t35():
     return (c.tolist(), b.tolist(), w.tolist(), d.tolist(), e.tolist(), f.tolist(), g, h.tolist(), idx.tolist(), m.tolist(),
             np.sign(np.array([-2.0, 0.0, 3.0])).tolist(), np.abs(np.array([-2.0, 3.0])).tolist(), float(np.prod(b)), np.size(a), np.ndim(a), a.ravel()[::2].tolist(),
             np.triu(np.ones((2, 2))).tolist(), np.eye(2).tolist(), np.linspace(0, 1, 3).tolist(), np.repeat(np.array([1, 2]), 2).tolist(), np.tile(np.array([1, 2]), 2).tolist())
+
+
+# ---------------------------------------------------------------- module level effects and run-time class attributes
+TABLE = {}
+TABLE['a'] = 1
+for _k in ('b', 'c'):
+    TABLE[_k] = len(TABLE) + 1
+COUNT: int = 3
+COUNT += 1
+if COUNT > 3:
+    def chosen():
+        return 'big'
+else:
+    def chosen():
+        return 'small'
+try:
+    LIMIT = TABLE['zz']
+except KeyError:
+    LIMIT = None
+
+
+class Host(object):
+    def base(self):
+        return 1
+
+    def twice(self):
+        return 2
+
+
+def _install(cls, table):
+    for name, factor in table:
+        def method(self, factor=factor):
+            return factor * self.base()
+        method.__name__ = name
+        setattr(cls, name, method)
+    for name, factor in table:
+        def late(self):
+            return factor * self.base()
+        setattr(cls, name + '_late', late)
+
+
+_install(Host, (('twice', 20), ('thrice', 30)))
+Host.marker = 'set later'
+
+
+def t36():
+    h = Host()
+    return (TABLE, COUNT, chosen(), LIMIT, h.twice(), h.thrice(), h.twice_late(), h.thrice_late(), Host.marker, h.marker,
+            hasattr(h, 'four'), Host.thrice.__name__)
